@@ -1,4 +1,5 @@
 """C08 -- shortest-path options restrict the answer but never change it (structural clauses)."""
+import json
 from core import ASSUME_RUSTC, ASSUME_PATHS
 from engines import value_descriptor, fmt_feature
 from flow import Flows, L, fmt_desc, desc_mentions
@@ -19,7 +20,7 @@ EXPLANATION = (
     "false changes nothing but the paths' for all inputs); first_only guards no write to dist/seen.  R-C08-4 the cutoff prune is a "
     "strict `candidate > cutoff` and the target exit follows the finalisation dist[v] = d.  R-C08-5 get_all_shortest_paths_involving "
     "asks all_pairs for (None, None, false, true) and filters with contains_path_through_node, whose slice excludes first and last.  "
-    "NOT decided: equality of the fast and full kernels' distances, symmetry, triangle inequality (value-level)."
+    "R-C08-8 the ContradictoryPaths refusal is immediately decided by a STRICT ordering comparison (ties are second shortest paths).  NOT decided: equality of the fast and full kernels' distances, symmetry, triangle inequality (value-level)."
 )
 TRUSTED = ["rustc MIR construction", "flow-insensitive may-dependence: absence of dependence is definite"]
 
@@ -64,6 +65,7 @@ def run(ctx):
     rule4(ctx, prog, flows, full)
     rule5(ctx, prog, flows)
     rule7(ctx, prog, flows, full)
+    rule8(ctx, prog, flows)
 
 
 def rule1(ctx, prog, flows, cub, full, basic):
@@ -502,3 +504,44 @@ def rule7(ctx, prog, flows, full):
         ctx.require(not reached_header and bool(wp_false), "R-C08-7", "improve|%d" % n, "the improvement of seen[u] is followed by a write of paths[u] on every with_paths path",
                     "after `seen[u]` is improved there is a path on which with_paths is set and the next edge is relaxed without paths[u] having been rewritten: the path reported for u stays that of an earlier, longer route (its distance is right, its path is not one of the shortest paths)", loc_str(full.blocks[s_bb].term.span))
     ctx.floor("R-C08-7", "seen_improvements", n, 1)
+
+
+def rule8(ctx, prog, flows):
+    """ContradictoryPaths is the answer to an edge that would IMPROVE a distance that is already final (a negative
+    weight): `candidate < final`.  Ties are normal -- two shortest routes of the same length to one node -- and must
+    go on to the equal-distance branch that records the second path; with `<=` every graph that has two equally short
+    routes is refused."""
+    from props.c01 import controlling_atoms
+
+    ctx.rule("R-C08-8", "the ContradictoryPaths refusal is decided by a STRICT comparison of the candidate distance with the final one (ties are not contradictions)")
+    # the helper(s) that build the error, from the code
+    makers = set()
+    for p_, b_ in prog.bodies.items():
+        if b_.kind == "closure" or p_.startswith("<") or "::fmt" in p_ or "clone" in p_:
+            continue
+        if any(s_.k == "assign" and "ContradictoryPaths" in json.dumps(s_.rv.j) for s_ in b_.stmts()):
+            makers.add(p_)
+    n = 0
+    for p_ in sorted(prog.bodies):
+        b_ = prog.bodies[p_]
+        root = b_
+        while root.kind == "closure":
+            root = prog.bodies[root.item["parent"]]
+        if not root.short.startswith("algorithms::shortest_path"):
+            continue
+        fl = None
+        sites = [t.bb for t in b_.calls() if t.callee and t.callee.target_path(prog) in makers]
+        if p_ in makers and b_.arg_count > 0:
+            sites += [s_.bb for s_ in b_.stmts() if s_.k == "assign" and "ContradictoryPaths" in json.dumps(s_.rv.j)]
+        for bb in sorted(set(sites)):
+            fl = fl or flows.of(b_)
+            n += 1
+            cmps = [(te, v) for (te, v, a) in controlling_atoms(fl, bb, direct=True) if isinstance(te, tuple) and te[0] == "binop" and te[1] in ("Lt", "Le", "Gt", "Ge")]
+            if not cmps:
+                ctx.undecided("R-C08-8", "refusal|%s|%d" % (b_.short, n), "the refusal in %s is not immediately decided by an ordering comparison; its strictness is not decided" % b_.short, loc_str(b_.blocks[bb].term.span))
+                continue
+            for (te, v) in cmps:
+                strict = (te[1] in ("Lt", "Gt")) == bool(v)
+                ctx.require(strict, "R-C08-8", "refusal|%s|%d" % (b_.short, n), "the refusal in %s is taken on the strict %s" % (b_.short.split("::")[-1], fmt_desc(te)),
+                            "the refusal in %s is taken when %s is %s, which includes equality: a node reached by two routes of the same length makes the search fail with ContradictoryPaths instead of recording both shortest paths" % (b_.short, fmt_desc(te), v), loc_str(b_.blocks[bb].term.span))
+    ctx.floor("R-C08-8", "contradictory_path_refusals", n, 1)
